@@ -1,20 +1,32 @@
 #!/bin/bash
-# Apply each kept seed to /repo, run the quick check of its property, undo the change.
-# Usage: tools/seed_matrix.sh [ids…]; appends "id exit first-violation" lines to seeded/matrix.tsv.
-# Nothing else may be using /repo's working tree while this runs.
+# For each kept seed: put the change on a copy of /repo HEAD, run the quick check of its property
+# against it, record what the check says, drop the copy. With --in-repo the change is applied to
+# /repo itself (git -C /repo apply …; check; git -C /repo checkout -- .) as the brief describes;
+# the default uses scratch worktrees under /tmp so that several seeds can run side by side.
+# Usage: tools/seed_matrix.sh [--in-repo] [ids…]; appends lines to seeded/matrix.tsv
+inrepo=0; [ "${1:-}" = "--in-repo" ] && { inrepo=1; shift; }
 ids="$@"; [ -z "$ids" ] && ids=$(ls /verif/seeded | grep '^C')
 out=/verif/seeded/matrix.tsv
 for id in $ids; do
   d=/verif/seeded/$id; prop=${id:0:3}
   p=$d/patch.diff; [ -f $d/patch.rebased.diff ] && p=$d/patch.rebased.diff
-  [ -n "$(git -C /repo status --porcelain)" ] && { echo "/repo not clean, refusing"; exit 2; }
-  git -C /repo apply $p || { echo -e "$id\tAPPLYFAIL" >> $out; continue; }
+  if [ $inrepo = 1 ]; then
+    [ -n "$(git -C /repo status --porcelain)" ] && { echo "/repo not clean, refusing"; exit 2; }
+    git -C /repo apply $p || { echo -e "$id\tAPPLYFAIL" >> $out; continue; }
+    target=/repo
+  else
+    target=/tmp/seedrun_$id
+    rm -rf $target; git -C /repo worktree prune
+    git -C /repo worktree add -q --detach $target HEAD || { echo -e "$id\tWORKTREE-FAIL" >> $out; continue; }
+    git -C $target apply $p || { echo -e "$id\tAPPLYFAIL" >> $out; git -C /repo worktree remove --force $target; continue; }
+  fi
   log=$(mktemp)
-  VERIF_EVIDENCE_DIR=/tmp/seed_matrix_ev VERIF_REPLAY_DIR=/tmp/seed_matrix_rp /verif/check $prop quick > $log 2>&1; rc=$?
-  git -C /repo checkout -- .
-  viol=$(grep -c '^VIOLATION' $log)
-  first=$(grep '^VIOLATION' $log | head -3 | sed -E 's/.*obligation=([^ ]+).*/\1/' | tr '\n' ' ')
-  sumline=$(grep '^govc:' $log | tail -1 | sed -E 's/.*(violations=[0-9]+).*(wall=[0-9.]+s).*/\1 \2/')
-  echo -e "$id\t$prop\texit=$rc\tviolations=$viol\t$sumline\t$first" >> $out
-  rm -f $log
+  VERIF_REPO=$target VERIF_EVIDENCE_DIR=/tmp/seed_matrix_ev_$id VERIF_REPLAY_DIR=/tmp/seed_matrix_rp_$id GOVC_CACHE=/tmp/seed_matrix_cache_$id /verif/check $prop quick > $log 2>&1; rc=$?
+  if [ $inrepo = 1 ]; then git -C /repo checkout -- .; else git -C /repo worktree remove --force $target; fi
+  nc=$(grep -a '^VIOLATION' $log | grep -vc 'bounded')
+  nb=$(grep -a '^VIOLATION' $log | grep -c 'bounded')
+  firstc=$(grep -a '^VIOLATION' $log | grep -v bounded | head -3 | sed -E 's/.*obligation=([^ ]+).*/\1/' | tr '\n' ' ')
+  firstb=$(grep -a '^VIOLATION' $log | grep bounded | head -3 | sed -E 's/.*bounded-check=([^ ]+).*/\1/' | tr '\n' ' ')
+  echo -e "$id\t$prop\texit=$rc\tcontract=$nc\tbounded=$nb\t$firstc\t$firstb" >> $out
+  rm -rf $log /tmp/seed_matrix_ev_$id /tmp/seed_matrix_rp_$id /tmp/seed_matrix_cache_$id
 done
